@@ -105,7 +105,8 @@ WITNESSES = ("prefix_named_outside_target", "prefix_named_outside_target_raises"
              "derived_mode_stale_after_definer_switch",
              "child_reference_stale_after_parent_base_removed",
              "child_reference_stale_after_base_deleted",
-             "nested_deriver_named_like_its_base")
+             "nested_deriver_named_like_its_base",
+             "mirrored_tree_related_at_top_and_depth2")
 
 
 def run_witness(case):
